@@ -1,3 +1,3 @@
-Require Import PG.C20.RelmapModel PG.C20.RelmapSpec.
+Require Import PG.C20.RelmapModel PG.C20.RelmapSpec PG.C20.RelmapFs PG.C20.SeqModel PG.C20.SeqSpec.
 Require Extraction. Require ExtrOcamlBasic.
-Extraction "model.ml" ParseRelMapFile enc_relmap GetFilenode GetOID first_filenode first_oid.
+Extraction "model.ml" ParseRelMapFile enc_relmap GetFilenode GetOID first_filenode first_oid ReadGlobalRelMap ReadDatabaseRelMap ReadAllRelMaps GetCatalogName GetEnhancedMappings parseSequenceTuple ParseSequenceFile IsSequenceFile FindSequences ScanAllSequences enc_seq enc_seqdata expected_last expected_called expected_listing expected_scan.
